@@ -94,6 +94,9 @@ class Report:
         self.undecided_reasons = []
         self.extra = {}
         self.seed = int(os.environ.get('VERIF_SEED', '0') or 0)
+        import glob
+        for f in glob.glob(os.path.join(VERIF, 'replay', pid + '-*')):
+            os.remove(f)
 
     def add(self, ob):
         self.obligations.append(ob)
